@@ -318,7 +318,7 @@ func (c *VerifCtx) makeReplay(fr *FuncResult, o *Obligation, workdir string) *Re
 		keys = append(keys, k)
 	}
 	sort.Strings(keys)
-	sb.WriteString("\tm := map[string]uint64{\n")
+	sb.WriteString("\tlm := map[string]uint64{\n")
 	for _, k := range keys {
 		fmt.Fprintf(&sb, "\t\t%q: %#x,\n", k, model[k])
 	}
@@ -330,8 +330,8 @@ func (c *VerifCtx) makeReplay(fr *FuncResult, o *Obligation, workdir string) *Re
 	pi := 0
 	declParam := func(name string, t types.Type, probe string) {
 		ts := types.TypeString(t, qual)
-		fmt.Fprintf(&sb, "\t%s := lncvcBuild(reflect.TypeOf((*%s)(nil)).Elem(), %q, m, 3).Interface()\n", "v_"+name, ts, probe)
-		fmt.Fprintf(&sb, "\tvar %s %s\n\tif v_%s != nil { %s = v_%s.(%s) }\n", name, ts, name, name, name, ts)
+		fmt.Fprintf(&sb, "\t%s := lncvcBuild(reflect.TypeOf((*%s)(nil)).Elem(), %q, lm, 3)\n", "v_"+name, ts, probe)
+		fmt.Fprintf(&sb, "\tvar %s %s\n\tif v_%s.IsValid() && !(v_%s.Kind() == reflect.Interface && v_%s.IsNil()) { %s = v_%s.Interface().(%s) }\n", name, ts, name, name, name, name, name, ts)
 	}
 	if ct.Stub.Recv != nil {
 		recvName = ct.Stub.Recv.List[0].Names[0].Name
@@ -409,6 +409,28 @@ func (c *VerifCtx) makeReplay(fr *FuncResult, o *Obligation, workdir string) *Re
 	ifb.WriteString("func lncvcIface(t reflect.Type, name string, m map[string]uint64, depth int) (reflect.Value, bool) {\n")
 	ifb.WriteString("\tif t.String() == \"btclog.Logger\" { return reflect.ValueOf(btclog.Disabled), true }\n")
 	imports["github.com/btcsuite/btclog/v2"] = true
+	ifb.WriteString("\tswitch m[name+\".tag\"] {\n")
+	var ids []int
+	for id := range fr.TypeIDs {
+		ids = append(ids, id)
+	}
+	sort.Ints(ids)
+	for _, id := range ids {
+		t := fr.TypeIDs[id]
+		pt, ok := t.(*types.Pointer)
+		if !ok {
+			continue
+		}
+		nt, ok := pt.Elem().(*types.Named)
+		if !ok || nt.Obj().Pkg() != pkg {
+			continue
+		}
+		if _, ok := nt.Underlying().(*types.Struct); !ok {
+			continue
+		}
+		fmt.Fprintf(&ifb, "\tcase %d:\n\t\tp := lncvcBuild(reflect.TypeOf((*%s)(nil)), name+\".(%s)\", m, depth)\n\t\tif p.IsNil() { p = reflect.New(reflect.TypeOf(%s{})) }\n\t\tif p.Type().Implements(t) { return p, true }\n", id, nt.Obj().Name(), nt.Obj().Name(), nt.Obj().Name())
+	}
+	ifb.WriteString("\t}\n")
 	ifb.WriteString("\treturn reflect.Value{}, false\n}\n")
 	var nonNil strings.Builder
 	nonNil.WriteString("var lncvcNonNil = map[string]bool{}\n")
